@@ -164,7 +164,7 @@ func rulesGen(r *rand.Rand, lane string) *rulesCase {
 		}
 		for k := 0; k < clen; k++ {
 			op := core.Pick(r, "@rx", "@rx", "@rx", "!@rx", "@pm", "@streq", "@detectSQLi")
-			operand := core.Pick(r, "old", `^old\d+$`, `old\"x`, "a b", "", `(?i)o\x5cld`, "old @rx older", `name=\" \(x\)`, `a\" \.b\" \d`, `\$old_\d`, "ARGS", "XML", "SecRule", "REQUEST_COOKIES", "S", " lead", "  two blanks", "\tx")
+			operand := core.Pick(r, "old", `^old\d+$`, `old\"x`, "a b", "", `(?i)o\x5cld`, "old @rx older", `foo\"@rx bar`, `x\"!@rx y`, `name=\" \(x\)`, `a\" \.b\" \d`, `\$old_\d`, "ARGS", "XML", "SecRule", "REQUEST_COOKIES", "S", " lead", "  two blanks", "\tx")
 			if !strings.HasSuffix(op, "rx") {
 				operand = core.Pick(r, "foo bar", "x", "")
 			}
